@@ -51,6 +51,17 @@ struct Src<'a> {
 }
 
 impl<'a> Src<'a> {
+    /// first vertex to last vertex of a closed curve: zero when it is closed exactly, up to tol when
+    /// it is closed only within its tolerance (the library then treats the last vertex as the first
+    /// one and never visits it, so every tolerance below carries this seam)
+    fn seam(&self) -> f64 {
+        if self.closed {
+            (self.m.v[0] - self.m.v[self.m.v.len() - 1]).norm()
+        } else {
+            0.0
+        }
+    }
+
     fn new(curve: &'a Curve2) -> Self {
         let m = PolyModel2::new(curve.points());
         let l_tot = curve.length();
@@ -153,7 +164,7 @@ fn judge_between(c: &mut Ctx, s: &Src, l0: f64, l1: f64, class: &str, api: &str,
     let exp = expected_list(s, l0, l1);
     let (tol, eps) = (s.tol, s.eps);
     c.close(api, "front == P(l0)", class, (pv[0] - exp[0]).norm(), 0.0, eps);
-    c.close(api, "back within tol of P(l1)", class, (pv[pv.len() - 1] - exp[exp.len() - 1]).norm(), 0.0, tol + eps);
+    c.close(api, "back within tol of P(l1)", class, (pv[pv.len() - 1] - exp[exp.len() - 1]).norm(), 0.0, tol + s.seam() + eps);
     c.close(api, "length == travel", class, p.length(), e, 4.0 * tol + eps);
     // subsequence of the expected list: interior vertices exactly, end points within eps
     let mut i = 0usize;
@@ -314,7 +325,7 @@ fn run_portions(c: &mut Ctx) {
                     c.close("Curve2::split_closed_at_lengths", "lengths sum to the whole", class, la + lb, s.l_tot, 8.0 * s.tol + s.eps);
                     if let (Some(a), Some(b)) = (a, b) {
                         let d = (a.at_back().point() - b.at_front().point()).norm().max((b.at_back().point() - a.at_front().point()).norm());
-                        c.close("Curve2::split_closed_at_lengths", "pieces meet at the split points", class, d, 0.0, s.tol + s.eps);
+                        c.close("Curve2::split_closed_at_lengths", "pieces meet at the split points", class, d, 0.0, s.tol + s.seam() + s.eps);
                     }
                 }
             }
@@ -382,7 +393,7 @@ fn run_portions(c: &mut Ctx) {
             Posed::Well => {
                 if let Some(p) = judge_between(c, &s, q0, q1, class, api, res) {
                     let pc = s.m.at(ctl);
-                    c.close(api, "piece contains the control position", class, dist_to_poly(p.points(), &pc), 0.0, s.tol + s.eps);
+                    c.close(api, "piece contains the control position", class, dist_to_poly(p.points(), &pc), 0.0, s.tol + s.seam() + s.eps);
                 }
             }
         }
